@@ -58,9 +58,44 @@ def fails_on(prop, succ, stage, labels):
     return False
 
 
+def cached_cases(ctx):
+    """The six closed-CFG properties judge the same pipeline runs; the runs are cached under
+    .cache/, keyed by the content of /repo's package, of the harness, of the driver binary, the
+    tier and the seed — any change to any of them recomputes. Evidence is rewritten regardless."""
+    import hashlib
+    import pickle
+    h = hashlib.sha256()
+    h.update(common.repo_fingerprint().encode())
+    for f in ("harness/hier.py", "harness/gen.py", "harness/export.py", "harness/common.py"):
+        h.update(open(os.path.join(common.VERIF, f), "rb").read())
+    h.update(open(common.DRIVER, "rb").read())
+    h.update(f"{ctx['tier']}/{ctx['seed']}".encode())
+    if os.environ.get("VERIF_NO_CACHE"):
+        return hier.run_graphs(gen.graph_inputs(ctx["tier"], ctx["seed"]))
+    cdir = os.path.join(common.VERIF, ".cache")
+    os.makedirs(cdir, exist_ok=True)
+    path = os.path.join(cdir, f"hier-{h.hexdigest()[:24]}.pkl")
+    if os.path.exists(path):
+        try:
+            return pickle.load(open(path, "rb"))
+        except Exception:  # noqa: BLE001
+            pass
+    cases = hier.run_graphs(gen.graph_inputs(ctx["tier"], ctx["seed"]))
+    for old in os.listdir(cdir):
+        if old.startswith("hier-") and ctx["tier"] == "quick":
+            try:
+                if os.path.getmtime(os.path.join(cdir, old)) < __import__("time").time() - 6 * 3600:
+                    os.unlink(os.path.join(cdir, old))
+            except OSError:
+                pass
+    tmp = path + f".{os.getpid()}"
+    pickle.dump(cases, open(tmp, "wb"))
+    os.replace(tmp, path)
+    return cases
+
+
 def run(ctx, prop):
-    inputs = gen.graph_inputs(ctx["tier"], ctx["seed"])
-    cases = hier.run_graphs(inputs)
+    cases = cached_cases(ctx)
     by_gen = Counter(c["tag"] for c in cases)
     sizes = Counter(len(c["succ"]) for c in cases)
     aborts = Counter(c["abort"][1] for c in cases if c["abort"])
